@@ -241,8 +241,18 @@ func vpMetricMin(e *Engine, st *State, fn *ssa.Function, a []Value, s ssa.Instru
 }
 
 func vpLazyGo(e *Engine, st *State, fn *ssa.Function, a []Value, s ssa.Instruction) []Outcome {
-	st.ghost["vp.lazygo"] = a[0].(*Term)
-	return one(st, nil)
+	c := a[0].(*Term)
+	if c.IsConst() {
+		st.ghost["vp.lazygo"] = c
+		return one(st, nil)
+	}
+	// a symbolic choice: both schedules are explored
+	lazy := st.clone()
+	lazy.assume(c)
+	lazy.ghost["vp.lazygo"] = e.tm.True
+	st.assume(e.tm.Not(c))
+	st.ghost["vp.lazygo"] = e.tm.False
+	return []Outcome{{st: lazy}, {st: st}}
 }
 
 func vpBlocked(e *Engine, st *State, fn *ssa.Function, a []Value, s ssa.Instruction) []Outcome {
